@@ -991,6 +991,8 @@ func checkC25(c *Ctx) string {
 	c.Stats["t3_unary"] = nUn
 	c.Stats["t3_nary_fn"] = nFn
 	c.Stats["t3_nary_helper"] = nSet
+	checkComparisonTables(c, id+".6 K9 the folder's swap / negate token tables are consistent")
+	checkInRangeRaw(c, id+".7 K14 range expressions on stored encodings honour their bounds")
 	return "Decided (shared clause of C25 and C30): T1 = the two arrays of op.Opcode with constant tok.Token keys in package compile (unary/binary told apart by the node type whose Tok indexes them); " +
 		"T2 = for each case of the interpreter's switch on op.Opcode, the value left on the stack, by symbolic execution of the case body over the stack primitives, as an expression over the operands at entry (left = stack[sp-2], right = stack[sp-1]); " +
 		"T3 = the expression returned per token by the methods of ast.Binary / ast.Unary that map Value operands to a Value (eval, which the folder uses for constants and the query engine for rows), the core function handed to the n-ary helpers by Nary.Eval and Folder.foldNary, " +
